@@ -207,7 +207,7 @@ def area_positions_inside(self, selection, p):
     ensures('exactly-the-interior-cells', lambda: (p in list(result())) == (area_has(self, p) and not area_border(self, p)))
 
 
-@contract(target=G + 'Area.positions', args={'self': 'Area', 'selection': 'str'}, props=['C18'])
+@contract(target=G + 'Area.positions', args={'self': 'Area', 'selection': ('oneof', ['all', 'border', 'inside', 'interior', ''])}, props=['C18'])
 def area_positions_rejects_other_selections(self, selection):
     ensures('valueerror-for-unknown-selection', lambda: implies(
         selection != 'all' and selection != 'border' and selection != 'inside', lambda: raised(ValueError)))
@@ -230,7 +230,7 @@ def area_constructor(ys, xs):
                                                 and result().xs[0] == xs[0] and result().xs[1] == xs[1]))
 
 
-@contract(target=G + 'distance_function_factory', args={'name': 'str'}, props=['C18', 'C12'])
+@contract(target=G + 'distance_function_factory', args={'name': ('oneof', ['manhattan', 'euclidean', 'chebyshev', ''])}, props=['C18', 'C12'])
 def distance_function_factory(name):
     ensures('known-names-or-valueerror', lambda: returned() == (name == 'manhattan' or name == 'euclidean')
             and implies(not returned(), lambda: raised(ValueError)))
